@@ -157,12 +157,15 @@ def graph_content(gid):
     return nodes, edges
 
 
+MAX_SNAPSHOTS = 2
+
+
 class CBMModel(Model):
     def __init__(self, family):
         self.family = family
         self.name = f'c14-{family}'
         self.merged = ()
-        self.snap = None            # (snapshot graph id, merged set at that time)
+        self.snap = ()              # outstanding snapshots, oldest first: (snapshot graph id, merged set at that time, creators)
 
     def roots(self):
         return [self.family]
@@ -179,7 +182,7 @@ class CBMModel(Model):
             self.adm_ids.append(spec[2])
         self.sources = {a: graph_content(a) for a in self.adm_ids}
         self.merged = ()
-        self.snap = None
+        self.snap = ()
         self.creator = {}
 
     def cbm(self):
@@ -202,10 +205,11 @@ class CBMModel(Model):
         ev = []
         for a in self.adm_ids:
             ev.append(('unmerge', a) if a in self.merged else ('merge', a))
-        if self.merged and self.snap is None:
+        # up to two snapshots alive at a time (of different contents), rolled back to in either order
+        if self.merged and len(self.snap) < MAX_SNAPSHOTS and all(sn[1] != self.merged for sn in self.snap):
             ev.append(('snapshot',))
-        if self.snap is not None:
-            ev.append(('rollback',))
+        for i in range(len(self.snap)):
+            ev.append(('rollback', i))
         return ev
 
     def apply(self, ev):
@@ -225,12 +229,15 @@ class CBMModel(Model):
                 self.creator = {n: c for n, c in self.creator.items() if n in left}
             elif k == 'snapshot':
                 sid = self.cbm().snapshot()
-                self.snap = (sid, self.merged, dict(self.creator))
+                self.snap = self.snap + ((sid, self.merged, dict(self.creator)),)
             elif k == 'rollback':
-                self.cbm().rollback(graph_id=self.snap[0])
-                self.merged = self.snap[1]
-                self.creator = dict(self.snap[2])
-                self.snap = None
+                i = ev[1] if len(ev) > 1 else 0
+                sn = self.snap[i]
+                # the snapshot is used up whatever happens; the others stay
+                self.snap = self.snap[:i] + self.snap[i + 1:]
+                self.cbm().rollback(graph_id=sn[0])
+                self.merged = sn[1]
+                self.creator = dict(sn[2])
             return ('ok',)
         except Exception as e:
             import traceback
@@ -299,13 +306,15 @@ class CBMModel(Model):
                 if got_e[e] != want_e[e]:
                     v.append(('union/edge-properties', f'{sorted(e)} {ctx}'))
         # nothing but the sources, the combined model and an outstanding snapshot lives in the store
-        allowed = set(self.adm_ids) | {'CBM'} | ({self.snap[0]} if self.snap else set())
+        allowed = set(self.adm_ids) | {'CBM'} | {sn[0] for sn in self.snap}
         present = {d.get('GraphID') for _, d in world.shared_store().graphs.nodes(data=True)}
         if present - allowed:
             v.append(('leftover-graphs', f'{sorted(present - allowed)} {ctx}'))
-        if self.snap:
-            sn, se = graph_content(self.snap[0])
-            wn, we = self.expected(self.snap[1], self.snap[2])
+        if len({sn[0] for sn in self.snap}) != len(self.snap):
+            v.append(('snapshot-ids-collide', f'two outstanding snapshots carry one graph id {ctx}'))
+        for snp in self.snap:
+            sn, se = graph_content(snp[0])
+            wn, we = self.expected(snp[1], snp[2])
             if set(sn) != set(wn) or set(se) != set(we):
                 v.append(('snapshot-content', ctx))
         cross = [1 for a, b in world.shared_store().graphs.edges()
@@ -323,7 +332,7 @@ class CBMModel(Model):
         # has a different future (the next allocation lands on live nodes) and must not be merged with the healthy state
         st = world.shared_store()
         healthy = st.start_id > max(st.graphs.nodes, default=0)
-        return (nodes, edges, self.merged, self.snap[1] if self.snap else None, healthy)
+        return (nodes, edges, self.merged, tuple(sn[1] for sn in self.snap), healthy)
 
 
 MODELS = {f: CBMModel(f) for f in FAMILIES}
